@@ -1,0 +1,357 @@
+//go:build verif
+
+// Contracts for pipe (properties C05, C06, C07, C08, C11, C12, C13). Comment-only file: see
+// /verif/DESIGN.md sections 2.1 and 4.
+//
+// Every stage is one goroutine (`go 0`) that owns the send/close end of the channels it
+// creates (`takes`) and receives from the channels it was given (`inputs`). Its contract is
+// about the goroutine's own ghost traces: sent(c), rcvd(c), closed(c), drained(c); the
+// outcome of every receive and select is a demonic choice, so what is proved holds for every
+// schedule and capacity. total(c) is everything the environment will ever deliver on c.
+
+package pipe
+
+//@ fileprops C05 C06 C07
+
+// ---- stage functions: Lift/Pure = fail-fast, Try = try-and-continue ----
+
+//@ interface F
+//@   ghostmethod failfast() : Bool
+//@   method Apply
+//@     pure
+//@   method errch
+//@     requires $1 >= 0
+//@     ensures fresh(result) && own(result) && !closed(result) && sent(result) == [] && shares(result) == 0
+//@     ensures failfast_has_a_slot: self.failfast() ==> slots(result) >= 1
+//@   method catch
+//@     requires $3 != nil && maysend($3) && !closed($3)
+//@     requires self.failfast() ==> slots($3) >= 1
+//@     modifies sent($3), slots($3), sawCancel
+//@     opt observes_cancel=1
+//@     ensures failfast_sends_and_stops: self.failfast() ==> !result && sent($3) == snoc(old(sent($3)), $2) && sawCancel == old(sawCancel)
+//@     ensures try_sends_or_cancelled: !self.failfast() ==> ite(result, sent($3) == snoc(old(sent($3)), $2) && sawCancel == old(sawCancel), sawCancel && sent($3) == old(sent($3)))
+
+//@ type pure implements F
+//@   model failfast(self) = true
+//@   model Apply(self, a) = app(self, a)
+//@   model Apply#1(self, a) = app1(self, a)
+
+//@ type try implements F
+//@   model failfast(self) = false
+//@   model Apply(self, a) = app(self, a)
+//@   model Apply#1(self, a) = app1(self, a)
+
+//@ func Pure
+//@   ensures result != nil && result.failfast()
+//@   ensures never_fails: forall a A :: result.Apply(a) == app(f, a) && result.Apply#1(a) == nil
+//@   fn 0:
+//@     pure
+//@     ensures result == app($o1, $1) && result1 == nil
+
+//@ func Lift
+//@   ensures result != nil && result.failfast()
+//@   ensures forall a A :: result.Apply(a) == app(f, a) && result.Apply#1(a) == app1(f, a)
+
+//@ func Try
+//@   ensures result != nil && !result.failfast()
+//@   ensures forall a A :: result.Apply(a) == app(f, a) && result.Apply#1(a) == app1(f, a)
+
+// ---- Map: images of the elements, in order; errors per mode ----
+
+//@ func Map
+//@   requires f != nil
+//@   go 0:
+//@     opt takes=out,exx
+//@     opt inputs=in
+//@     opt lemmas=tmapok_mono,tprefix_init
+//@     requires f != nil && out != exx
+//@     requires f.failfast() ==> slots(exx) >= 1
+//@     loop 0 invariant !closed(out) && !closed(exx) && !sawCancel
+//@     loop 0 invariant sent(out) == tmapok(f, rcvd(in)) && sent(exx) == terrs(f, rcvd(in))
+//@     loop 0 invariant f.failfast() ==> tallok(f, rcvd(in)) && sent(exx) == [] && slots(exx) >= 1
+//@     ensures closes_outputs: closed(out) && closed(exx)
+//@     ensures values_in_order: !sawCancel ==> sent(out) == tmapok(f, rcvd(in))
+//@     ensures errors_in_order: !sawCancel ==> sent(exx) == terrs(f, rcvd(in))
+//@     ensures runs_to_the_end: !sawCancel && (!f.failfast() || sent(exx) == []) ==> drained(in)
+//@     ensures failfast_stops_at_first_error: f.failfast() && !sawCancel && !drained(in) ==> rcvd(in) != [] && tallok(f, init(rcvd(in))) && f.Apply#1(last(rcvd(in))) != nil && sent(out) == tmapok(f, init(rcvd(in))) && sent(exx) == [f.Apply#1(last(rcvd(in)))]
+//@     ensures [C06] delivered_is_a_prefix: isPrefix(sent(out), tmapok(f, total(in)))
+
+// ---- Filter ----
+
+//@ func Filter
+//@   requires f != nil
+//@   go 0:
+//@     opt takes=out
+//@     opt inputs=in
+//@     opt lemmas=tfilter_mono,tprefix_init
+//@     requires f != nil
+//@     loop 0 invariant !closed(out) && !sawCancel && sent(out) == tfilter(f, rcvd(in))
+//@     ensures closes_outputs: closed(out)
+//@     ensures kept_in_order: !sawCancel ==> drained(in) && sent(out) == tfilter(f, rcvd(in))
+//@     ensures [C06] delivered_is_a_prefix: isPrefix(sent(out), tfilter(f, total(in)))
+
+// ---- Take: forwards what it consumes, consumes at most n, stops early only at the end of input ----
+
+//@ func Take
+//@   requires n >= 0
+//@   go 0:
+//@     opt takes=out
+//@     opt inputs=in
+//@     opt lemmas=tprefix_init
+//@     ghost n0 := n
+//@     requires n >= 0
+//@     loop 0 invariant !closed(out) && !sawCancel && sent(out) == rcvd(in) && len(rcvd(in)) + n == n0 && (n0 >= 1 ==> n >= 1)
+//@     ensures closes_outputs: closed(out)
+//@     ensures forwards_what_it_consumes: !sawCancel ==> sent(out) == rcvd(in)
+//@     ensures consumes_at_most_n: len(rcvd(in)) <= n0
+//@     ensures stops_early_only_at_end_of_input: !sawCancel && len(rcvd(in)) < n0 ==> drained(in)
+//@     ensures [C06] delivered_is_a_prefix: isPrefix(sent(out), total(in))
+
+// ---- TakeWhile: longest prefix whose elements are all kept ----
+
+//@ func TakeWhile
+//@   requires f != nil
+//@   go 0:
+//@     opt takes=out
+//@     opt inputs=in
+//@     opt lemmas=tprefix_init
+//@     requires f != nil
+//@     loop 0 invariant !closed(out) && !sawCancel && sent(out) == rcvd(in) && tallkeep(f, rcvd(in))
+//@     ensures closes_outputs: closed(out)
+//@     ensures all_kept: tallkeep(f, sent(out))
+//@     ensures longest_prefix: !sawCancel ==> ite(drained(in), sent(out) == rcvd(in), rcvd(in) != [] && sent(out) == init(rcvd(in)) && !keep(f, last(rcvd(in))))
+//@     ensures [C06] delivered_is_a_prefix: isPrefix(sent(out), total(in))
+
+// ---- Partition: both order-preserving halves ----
+
+//@ func Partition
+//@   requires f != nil
+//@   go 0:
+//@     opt takes=lout,rout
+//@     opt inputs=in
+//@     opt lemmas=tfilter_mono,tprefix_init
+//@     requires f != nil && lout != rout
+//@     loop 0 invariant !closed(lout) && !closed(rout) && !sawCancel && sent(lout) == tfilter(f, rcvd(in)) && sent(rout) == tfilternot(f, rcvd(in))
+//@     ensures closes_outputs: closed(lout) && closed(rout)
+//@     ensures halves_in_order: !sawCancel ==> drained(in) && sent(lout) == tfilter(f, rcvd(in)) && sent(rout) == tfilternot(f, rcvd(in))
+//@     ensures [C06] delivered_is_a_prefix: isPrefix(sent(lout), tfilter(f, total(in))) && isPrefix(sent(rout), tfilternot(f, total(in)))
+
+// ---- Fold: left fold from the monoid's empty element ----
+
+//@ func Fold
+//@   requires m != nil
+//@   go 0:
+//@     opt takes=done
+//@     opt inputs=in
+//@     requires m != nil && slots(done) >= 1
+//@     loop 0 invariant !closed(done) && !sawCancel && sent(done) == [] && slots(done) >= 1 && acc == foldm(m, m.Empty(), rcvd(in))
+//@     ensures closes_outputs: closed(done)
+//@     ensures left_fold_from_empty: !sawCancel ==> drained(in) && sent(done) == [foldm(m, m.Empty(), rcvd(in))]
+//@     ensures [C06] delivered_is_a_prefix: !sawCancel ==> isPrefix(sent(done), [foldm(m, m.Empty(), total(in))])
+//@     ensures [C06] delivered_is_a_prefix_after_cancel: sawCancel ==> isPrefix(sent(done), [foldm(m, m.Empty(), total(in))])
+
+// ---- ForEach / Void: consume everything, then close ----
+
+//@ func ForEach
+//@   requires f != nil
+//@   go 0:
+//@     opt takes=done
+//@     opt inputs=in
+//@     requires f != nil
+//@     loop 0 invariant !closed(done) && !sawCancel && sent(done) == []
+//@     ensures closes_outputs: closed(done)
+//@     ensures consumes_all: !sawCancel ==> drained(in)
+//@     ensures sends_nothing: sent(done) == []
+
+//@ func Void
+//@   go 0:
+//@     opt takes=done
+//@     opt inputs=in
+//@     loop 0 invariant !closed(done) && !sawCancel && sent(done) == []
+//@     ensures closes_outputs: closed(done)
+//@     ensures consumes_all: !sawCancel ==> drained(in)
+//@     ensures sends_nothing: sent(done) == []
+
+// ---- Seq / ToSeq: identity ----
+
+//@ func Seq
+//@   props C05 C06
+//@   ensures result != nil && closed(result)
+//@   ensures holds_the_elements_in_order: sent(result) == tol([], xs)
+//@   loop 0 invariant own(out) && !closed(out) && slots(out) == len(rest) && tol(sent(out), rest) == tol([], xs)
+
+//@ func ToSeq
+//@   props C05 C06
+//@   ensures the_elements_in_order: result == tolist(rcvd(ch)) && drained(ch)
+//@   requires rcvd(ch) == []
+//@   loop 0 invariant seq == tolist(rcvd(ch))
+
+//@ func StdErr
+//@   props C06 C07
+//@   go 0:
+//@     opt inputs=exx
+//@     ensures drains_the_error_channel: drained(exx)
+
+// ---- arrows (LiftF / TryF) and FMap: concatenation of what the arrow emits per element ----
+
+//@ interface FF
+//@   ghostmethod failfast() : Bool
+//@   ghostmethod emits(a A) : Tr[B]
+//@   ghostmethod fails(a A) : Err
+//@   method Apply
+//@     requires $3 != nil && maysend($3) && !closed($3)
+//@     modifies sent($3), sawCancel
+//@     ensures old(sawCancel) ==> sawCancel
+//@     ensures isPrefix(old(sent($3)), sent($3))
+//@     ensures arrow_emits_its_image: !sawCancel ==> sent($3) == old(sent($3)) ++ self.emits($2) && result == self.fails($2)
+//@   method errch
+//@     requires $1 >= 0
+//@     ensures fresh(result) && own(result) && !closed(result) && sent(result) == [] && shares(result) == 0
+//@     ensures failfast_has_a_slot: self.failfast() ==> slots(result) >= 1
+//@   method catch
+//@     requires $3 != nil && maysend($3) && !closed($3)
+//@     requires self.failfast() ==> slots($3) >= 1
+//@     modifies sent($3), slots($3), sawCancel
+//@     opt observes_cancel=1
+//@     ensures failfast_sends_and_stops: self.failfast() ==> !result && sent($3) == snoc(old(sent($3)), $2) && sawCancel == old(sawCancel)
+//@     ensures try_sends_or_cancelled: !self.failfast() ==> ite(result, sent($3) == snoc(old(sent($3)), $2) && sawCancel == old(sawCancel), sawCancel && sent($3) == old(sent($3)))
+
+//@ type puref implements FF
+//@   model failfast(self) = true
+//@   model emits(self, a) = arrowemits(self, a)
+//@   model fails(self, a) = arrowfails(self, a)
+
+//@ type tryf implements FF
+//@   model failfast(self) = false
+//@   model emits(self, a) = arrowemits(self, a)
+//@   model fails(self, a) = arrowfails(self, a)
+
+// trusted arrow contract: the user-supplied arrow sends exactly arrowemits(f, a) on the
+// channel it is given, in order, does not close it, and returns arrowfails(f, a)
+//@ func (puref) Apply
+//@   opt via=subtype
+//@   fn f:
+//@     requires $3 != nil && maysend($3) && !closed($3)
+//@     modifies sent($3), sawCancel
+//@     ensures old(sawCancel) ==> sawCancel
+//@     ensures isPrefix(old(sent($3)), sent($3))
+//@     ensures !sawCancel ==> sent($3) == old(sent($3)) ++ arrowemits(f, $2) && result == arrowfails(f, $2)
+
+//@ func (tryf) Apply
+//@   opt via=subtype
+//@   fn f:
+//@     requires $3 != nil && maysend($3) && !closed($3)
+//@     modifies sent($3), sawCancel
+//@     ensures old(sawCancel) ==> sawCancel
+//@     ensures isPrefix(old(sent($3)), sent($3))
+//@     ensures !sawCancel ==> sent($3) == old(sent($3)) ++ arrowemits(f, $2) && result == arrowfails(f, $2)
+
+//@ func LiftF
+//@   ensures result != nil && result.failfast()
+//@   ensures forall a A :: result.emits(a) == arrowemits(f, a) && result.fails(a) == arrowfails(f, a)
+
+//@ func TryF
+//@   ensures result != nil && !result.failfast()
+//@   ensures forall a A :: result.emits(a) == arrowemits(f, a) && result.fails(a) == arrowfails(f, a)
+
+//@ func FMap
+//@   requires fmap != nil
+//@   go 0:
+//@     opt takes=out,exx
+//@     opt inputs=in
+//@     requires fmap != nil && out != exx
+//@     requires fmap.failfast() ==> slots(exx) >= 1
+//@     loop 0 invariant !closed(out) && !closed(exx)
+//@     loop 0 invariant !sawCancel ==> sent(out) == tflat(fmap, rcvd(in)) && sent(exx) == tferrs(fmap, rcvd(in))
+//@     loop 0 invariant fmap.failfast() ==> slots(exx) >= 1 && (!sawCancel ==> tfallok(fmap, rcvd(in)) && sent(exx) == [])
+//@     ensures closes_outputs: closed(out) && closed(exx)
+//@     ensures concatenated_images_in_order: !sawCancel ==> sent(out) == tflat(fmap, rcvd(in))
+//@     ensures errors_in_order: !sawCancel ==> sent(exx) == tferrs(fmap, rcvd(in))
+//@     ensures runs_to_the_end: !sawCancel && (!fmap.failfast() || sent(exx) == []) ==> drained(in)
+//@     ensures failfast_stops_at_first_error: fmap.failfast() && !sawCancel && !drained(in) ==> rcvd(in) != [] && tfallok(fmap, init(rcvd(in))) && fmap.fails(last(rcvd(in))) != nil && sent(exx) == [fmap.fails(last(rcvd(in)))]
+
+// ---- Emit: f(0), f(1), ... one application per completed Sleep ----
+
+//@ func Emit
+//@   props C06 C07 C11
+//@   requires f != nil && cap >= 0
+//@   go 0:
+//@     props C06 C07 C11
+//@     opt takes=out,exx
+//@     opt overflow=off
+//@     requires f != nil && out != exx
+//@     requires f.failfast() ==> slots(exx) >= 1
+//@     loop 0 invariant !closed(out) && !closed(exx) && !sawCancel && i >= 0
+//@     loop 0 invariant one_application_per_tick: i <= sleeps && len(sent(out)) <= sleeps
+//@     loop 0 invariant sent(out) == tmapok(f, tupto(i)) && sent(exx) == terrs(f, tupto(i))
+//@     loop 0 invariant f.failfast() ==> tallok(f, tupto(i)) && sent(exx) == [] && slots(exx) >= 1
+//@     ensures closes_outputs: closed(out) && closed(exx)
+//@     ensures [C11 C07] successive_indices_no_gap_no_repeat: sent(out) == tmapok(f, tupto(i)) && (sent(exx) == terrs(f, tupto(i)) || sent(exx) == terrs(f, tupto(i + 1)))
+//@     ensures [C11] never_ahead_of_the_clock: len(sent(out)) <= sleeps
+//@     ensures stops_only_on_cancel_or_first_failure: sawCancel || (f.failfast() && sent(exx) != [])
+
+// ---- Unfold: seed, f(seed), f(f(seed)), ... ----
+
+//@ func Unfold
+//@   props C06 C07 C11
+//@   requires f != nil && cap >= 0
+//@   go 0:
+//@     props C06 C07 C11
+//@     opt takes=out,exx
+//@     ghost seed0 := seed
+//@     requires f != nil && out != exx
+//@     requires f.failfast() ==> slots(exx) >= 1
+//@     loop 0 invariant !closed(out) && !closed(exx) && !sawCancel
+//@     loop 0 invariant sent(out) == titer(f, seed0, len(sent(out))) && seed == fpow(f, seed0, len(sent(out)))
+//@     loop 0 invariant f.failfast() ==> sent(exx) == [] && slots(exx) >= 1
+//@     ensures closes_outputs: closed(out) && closed(exx)
+//@     ensures [C11] successive_iterates: sent(out) == titer(f, seed0, len(sent(out)))
+//@     ensures stops_only_on_cancel_or_first_failure: sawCancel || (f.failfast() && sent(exx) != [])
+
+// ---- Join: every copier forwards its input in order; out closes after all copiers ----
+
+//@ func Join
+//@   props C06 C12
+//@   ensures result != nil
+//@   loop 0 invariant own(out) && !closed(out) && sent(out) == [] && !closerSpawned && added == len(in) && spawned == idx && shares(out) == idx && idx + len(rest) == len(in)
+//@   fn 0:
+//@     props C06 C12
+//@     opt shares=out
+//@     opt inputs=c
+//@     opt worker=1
+//@     opt lemmas=tprefix_init
+//@     loop 0 invariant !closed(out) && !sawCancel && doneCalls == 0 && sent(out) == rcvd(c)
+//@     ensures [C12] forwards_its_input_in_order: !sawCancel ==> drained(c) && sent(out) == rcvd(c)
+//@     ensures delivered_is_a_prefix: isPrefix(sent(out), total(c))
+//@     ensures signals_completion_once: doneCalls == 1
+//@   go 0:
+//@     props C06 C12
+//@     opt takes=out
+//@     opt closer=1
+//@     ensures closes_after_all_copiers: closed(out) && waited
+
+// ---- Throttling: the data goroutine forwards every element in order after taking one token
+// each; the pacer hands out exactly ops tokens per completed interval wait ----
+
+//@ func Throttling
+//@   props C06 C13
+//@   requires ops >= 0
+//@   go 0:
+//@     props C06 C13
+//@     opt takes=ctl
+//@     opt overflow=off
+//@     requires cap(ctl) == ops && ops >= 0
+//@     loop 0 invariant !closed(ctl) && !sawCancel && len(sent(ctl)) == sleeps * ops
+//@     loop 1 invariant !closed(ctl) && !sawCancel && 0 <= i && i <= ops && len(sent(ctl)) == sleeps * ops + i
+//@     ensures closes_tokens_only_on_cancel: closed(ctl) && sawCancel
+//@     ensures [C13] ops_tokens_per_interval: len(sent(ctl)) <= sleeps * ops + ops
+//@   go 1:
+//@     props C06 C13
+//@     opt takes=out
+//@     opt inputs=in,ctl
+//@     opt lemmas=tprefix_init
+//@     loop 0 invariant !closed(out) && !sawCancel && sent(out) == rcvd(in) && (!drained(ctl) ==> len(rcvd(ctl)) == len(rcvd(in)))
+//@     ensures closes_outputs: closed(out)
+//@     ensures [C13] every_element_once_in_order: !sawCancel ==> drained(in) && sent(out) == rcvd(in)
+//@     ensures [C13] one_token_per_element_until_the_pacer_stops: !drained(ctl) ==> len(sent(out)) <= len(rcvd(ctl))
+//@     ensures delivered_is_a_prefix: isPrefix(sent(out), total(in))
